@@ -131,8 +131,10 @@ def run(ctx):
         ok = len(s_r) == 1 and len(u_r) == 1 and shape(s_r[0][0]) == shape(u_r[0][0]) == ["alpha", "Sha256(M)"] and s_r[0][1] == u_r[0][1] == pinned["salts"]["timelock"]
         ctx.ob("E3.sides", "r_input", ok, "seal r_input = %s, unseal r_input = %s, salts %r/%r (pinned: repr(alpha) ‖ Sha256(M), %r)" % (B.show_nf(s_r[0][0]) if s_r else None, B.show_nf(u_r[0][0]) if u_r else None, s_r[0][1] if s_r else None, u_r[0][1] if u_r else None, pinned["salts"]["timelock"]), where=where(s_))
         alpha = [x for x in so if len(x[0]) == 1]
-        ok_a = len(alpha) == 1 and alpha[0][1] == pinned["salts"]["timelock"] and any(t.op == "call" and B.cname(t) == "Rng::gen" for t in subterms(alpha[0][2].args[0]))
-        ctx.ob("E3.sides", "alpha", ok_a, "alpha = hash_to_scalar(rng.gen(), timelock salt)", where=where(s_))
+        from .c20 import draws as _draws
+
+        ok_a = len(alpha) == 1 and alpha[0][1] == pinned["salts"]["timelock"] and bool(_draws(alpha[0][2].args[0]))
+        ctx.ob("E3.sides", "alpha", ok_a, "alpha = hash_to_scalar(<bytes drawn from a generator>, timelock salt)", where=where(s_))
         # K: seal pairing[(H(id,dst), pk*r)], unseal pairing[(sig, u)]
         sp = [x for x in se.sites.values() if x.callee[0] == "Pairing::pairing"]
         up = [x for x in ue.sites.values() if x.callee[0] == "Pairing::pairing"]
@@ -156,6 +158,30 @@ def run(ctx):
                 uu = tup[0].a[1][0]
                 ok_u = uu.op == "call" and B.cname(uu) == "Mul::mul" and B.peel(uu.a[1][0]).op == "call" and B.cname(B.peel(uu.a[1][0])) == "Group::generator" and bool(sp) and any(t is uu.a[1][1] or t == uu.a[1][1] for t in subterms(strip_sites(sp[0].args[0])))
         ctx.ob("E3.sides", "U", ok_u, "U = G*r with the r that blinds the pairing key", where=where(s_))
+        # the two pairing keys as bilinear normal forms (sign and operand sensitive: K is key material, not a test)
+        from . import equations as EQ
+        from ..core import poly as PL
+
+        rterm = None
+        for v in oks:
+            v = B.peel(v)
+            if v is not None and v.op == "agg" and v.a[0][0] == "adt" and len(v.a[1]) == 1:
+                v = B.peel(v.a[1][0])
+            if v is not None and v.op == "agg" and v.a[0][0] == "tuple" and len(v.a[1]) == 3:
+                pu = PL.poly(v.a[1][0], EQ.std_atom())
+                xs = [k for m in pu for k in m if not isinstance(k, str)]
+                if len(pu) == 1 and len(xs) == 1 and list(pu.values()) == [1] and "G" in list(pu)[0]:
+                    rterm = xs[0]
+
+        def _tl_atom(t, rterm=rterm):
+            if rterm is not None and (t is rterm or strip_sites(t) == strip_sites(rterm)):
+                return "r"
+            if t.op == "call" and B.cname(t) == "HashToPoint::hash_to_point" and [EQ._pname(x) for x in t.a[1]] == ["id", "dst"]:
+                return "h"
+            return None
+
+        EQ.check_pairing_equation(ctx, "E5.equation", P, "BlsTimeCrypt::seal", {("h", "pk", "r"): 1}, "K = e(hash_to_point(id, dst), pk*r) with the r of U = G*r", sign_free=False, atom=EQ.std_atom(_tl_atom))
+        EQ.check_pairing_equation(ctx, "E5.equation", P, "BlsTimeCrypt::unseal", {("decryption_key", "u"): 1}, "K' = e(decryption_key, u)", sign_free=False)
     PR.check_xof_mask(ctx, "E5.keystream", P, "BlsTimeCrypt::compute_w", "alpha", "msg", "Shake128", False)
     PR.check_xof_mask(ctx, "E5.keystream", P, "BlsTimeCrypt::compute_v", "k_tick", "alpha_or_v", "Sha256", True)
     PR.check_byte_xor(ctx, "E5.keystream", P)
